@@ -200,7 +200,15 @@ def run_case(case):
             store[(a['iface'], a['pname'])] = R.normal_form(spec['sig'], a['init'])
         conn = _Conn()
         h = O.DBusObjectHandler(conn)
-        h.exportObject(obj)
+        if len(case['ops']) % 4 == 2:
+            # fail-over: the object was exported on another connection first and is withdrawn there once it is up here;
+            # from then on this connection is the one it lives on
+            h0 = O.DBusObjectHandler(_Conn())
+            h0.exportObject(obj)
+            h.exportObject(obj)
+            h0.unexportObject('/props')
+        else:
+            h.exportObject(obj)
         # a sibling: another instance of the same class with values of its own, exported next to the first; whatever is
         # done to the first object must leave it alone (property state belongs to the instance)
         twin = type(obj)('/twin')
@@ -400,13 +408,19 @@ def gen_case(draw, tier):
     ifaces = []
     attrs = []
     k = 0
+    # interface and property names that run into each other when written back to back:
+    # 'org.verif.P' + 'XAlpha' reads the same as 'org.verif.PX' + 'Alpha'
+    glue = nif == 2 and draw(st.integers(0, 3)) == 0
     for i in range(nif):
-        names = draw(st.lists(st.sampled_from(pool), min_size=1, max_size=4, unique=True))
+        names = draw(st.lists(st.sampled_from(pool if not glue else (['XAlpha', 'XBeta', 'Gamma'] if i == 0 else
+                                                                      ['Alpha', 'Beta', 'Gamma'])),
+                              min_size=1, max_size=4, unique=True))
         props = []
         for n in names:
             props.append({'name': n, 'sig': draw(st.sampled_from(TYPES)), 'r': draw(st.booleans()),
                           'w': draw(st.booleans()), 'emits': draw(st.sampled_from(['true', 'true', 'false', 'invalidates']))})
-        ifaces.append({'name': 'org.verif.P%d' % i, 'props': props, 'level': draw(st.sampled_from([0, 0, 1]))})
+        ifaces.append({'name': ('org.verif.P%d' % i) if not glue else ('org.verif.P', 'org.verif.PX')[i], 'props': props,
+                       'level': draw(st.sampled_from([0, 0, 1]))})
     counts = {}
     for s in ifaces:
         for p in s['props']:
